@@ -94,7 +94,9 @@ fn gen_stmt(rng: &mut Rng, m: &Model, next_id: &mut i64, next_col: &mut i64) -> 
     match rng.below(30) {
         0..=3 => {
             let extra = rng.chance(1, 3);
-            let sql = format!("CREATE TABLE {} (id INTEGER PRIMARY KEY, a INTEGER, b INTEGER{})", ttok, if extra { ", c INTEGER" } else { "" });
+            // (a bounded text column, always NULL, gives prefix indexes something to stand on)
+            let text = rng.chance(1, 3);
+            let sql = format!("CREATE TABLE {} (id INTEGER PRIMARY KEY, a INTEGER, b INTEGER{}{})", ttok, if extra { ", c INTEGER" } else { "" }, if text { ", s VARCHAR(8)" } else { "" });
             if exists {
                 return mk(sql, "create-table-existing", Expect::Reject);
             }
@@ -102,6 +104,9 @@ fn gen_stmt(rng: &mut Rng, m: &Model, next_id: &mut i64, next_col: &mut i64) -> 
             let mut cols = vec!["ID".to_string(), "A".to_string(), "B".to_string()];
             if extra {
                 cols.push("C".to_string());
+            }
+            if text {
+                cols.push("S".to_string());
             }
             n.tabs.insert(tname.clone(), Tab { cols, rows: vec![], constraints: BTreeMap::new(), defaulted: BTreeSet::new() });
             mk(sql, if table_sibling { "create-table-case-sibling" } else { "create-table" }, if table_sibling { Expect::Either(n) } else { Expect::Accept(n) })
@@ -137,7 +142,14 @@ fn gen_stmt(rng: &mut Rng, m: &Model, next_id: &mut i64, next_col: &mut i64) -> 
                 })
             });
             let unique = unique && dup_free && !two;
-            let sql = format!("CREATE {}INDEX {} ON {} ({})", if unique { "UNIQUE " } else { "" }, itok, ttok, cols.join(", "));
+            // prefix key parts on the text column: within the declared width, or beyond it (engines
+            // differ on whether the latter is an error; either way the registries must agree)
+            let prefix: Option<i64> = if cols == ["S"] && rng.chance(3, 4) { Some(*rng.pick(&[4i64, 8, 9, 64, 300])) } else { None };
+            let keys = match prefix {
+                Some(p) => format!("s({})", p),
+                None => cols.join(", "),
+            };
+            let sql = format!("CREATE {}INDEX {} ON {} ({})", if unique { "UNIQUE " } else { "" }, itok, ttok, keys);
             if !exists {
                 return mk(sql, "create-index-missing-table", if table_sibling { Expect::Either(m.clone()) } else { Expect::Reject });
             }
@@ -151,8 +163,13 @@ fn gen_stmt(rng: &mut Rng, m: &Model, next_id: &mut i64, next_col: &mut i64) -> 
             let sibling = m.ixs.keys().any(|k| k.to_uppercase() == iname.to_uppercase());
             let mut n = m.clone();
             n.ixs.insert(iname, Ix { table: tname.clone(), cols, unique });
-            let shape = if unique { "create-unique-index" } else { "create-index" };
-            mk(sql, shape, if sibling || table_sibling { Expect::Either(n) } else { Expect::Accept(n) })
+            let shape = match (prefix, unique) {
+                (Some(p), _) if p > 8 => "create-index-prefix-beyond-width",
+                (Some(_), _) => "create-index-prefix",
+                (None, true) => "create-unique-index",
+                (None, false) => "create-index",
+            };
+            mk(sql, shape, if sibling || table_sibling || prefix.map_or(false, |p| p > 8) { Expect::Either(n) } else { Expect::Accept(n) })
         }
         10 | 11 => {
             let itok = *rng.pick(&INDEX_TOKENS);
@@ -278,7 +295,8 @@ fn gen_stmt(rng: &mut Rng, m: &Model, next_id: &mut i64, next_col: &mut i64) -> 
             let mut row: Vec<V> = vec![Some(id)];
             for ci in 1..ncols {
                 let defaulted = tab.map_or(false, |t| t.defaulted.contains(&t.cols[ci]));
-                row.push(if !defaulted && rng.chance(1, 10) { None } else { Some(rng.range(0, 6)) });
+                let text = tab.map_or(false, |t| t.cols[ci] == "S");
+                row.push(if text || (!defaulted && rng.chance(1, 10)) { None } else { Some(rng.range(0, 6)) });
             }
             let sql = format!("INSERT INTO {} VALUES ({})", ttok, row.iter().map(|v| v.map_or("NULL".to_string(), |i| i.to_string())).collect::<Vec<_>>().join(", "));
             match tab {
@@ -416,6 +434,9 @@ fn audit_inner(s: &mut Session, m: &Model) -> Option<(String, serde_json::Value)
         }
         // probes through every column (index or not): equality and ordering
         for (ci, c) in t.cols.iter().enumerate().skip(1) {
+            if c == "S" {
+                continue;
+            }
             for k in [0i64, 1, 3, 5, 7] {
                 let sql = format!("SELECT id FROM {} WHERE {} = {}", tok, c.to_lowercase(), k);
                 let mut exp: Vec<i64> = t.rows.iter().filter(|r| r[ci] == Some(k)).filter_map(|r| r[0]).collect();
